@@ -219,6 +219,27 @@ def run_case(cb):
     all_loc = sum(sum(f["lengths"]) for f in cb["files"])
     if codebase.total_loc() != all_loc:
         return ("grand:codebase-total-loc", f"Codebase.total_loc() = {codebase.total_loc()}, expected {all_loc}")
+    if len(cb["files"]) >= 2:
+        # a code base that grows after its figures were asked for once (a long-lived Codebase object)
+        def grown():
+            half = len(cb["files"]) // 2
+            c2 = G.build(dict(cb, files=cb["files"][:half]))
+            c2.total_loc(), len(c2.all_measurements()), Report(c2).quality_profile()
+            extra = G.build(dict(cb, files=cb["files"][half:]))
+            for e in extra.files.values():
+                c2.add_file(e)
+            return c2.total_loc(), len(c2.all_measurements()), list(Report(c2).quality_profile())
+
+        r = call_sut(grown)
+        if r[0] == "exc":
+            return (f"grown:{r[1]}", r[2])
+        prof = [0, 0, 0, 0]
+        for f in cb["files"]:
+            for v in f["lengths"]:
+                prof[category(v)] += v
+        want_grown = (all_loc, sum(len(f["lengths"]) for f in cb["files"]), prof)
+        if r[1] != want_grown:
+            return ("grown:stale-figures", f"after adding files to a codebase whose figures had been read: (total_loc, functions, quality profile) = {r[1]}, expected {want_grown}")
     for pretty in (True, False):
         r = call_sut(lambda: ReportWriter(Report(codebase), pretty).to_json())
         if r[0] == "exc":
